@@ -14,7 +14,13 @@
 (* when a publisher has taken it, the poll waits for what that publisher   *)
 (* does with it (a result, nil, or registering it again).                  *)
 (*                                                                         *)
-(* Checked: NoDeadLetter (no accepted message ends in the channel of a     *)
+(* FixHB = FALSE is the original heart beat, whose timer derives from the  *)
+(* context of the request that caused the delivery (the poll's or the      *)
+(* publisher's) and so fires when that request or its connection ends;     *)
+(* FixHB = TRUE: it runs on its own timer.                                 *)
+(*                                                                         *)
+(* Checked: StaysOnline (a client that polls in time is never taken        *)
+(* offline), NoDeadLetter (no accepted message ends in the channel of a     *)
 (* poll that has returned), Conservation (every accepted message is in the *)
 (* cache, in a hand, in a channel or delivered - exactly once), InOrder    *)
 (* (what has been delivered is a prefix of what was accepted, when polls   *)
@@ -25,17 +31,27 @@ EXTENDS Integers, Sequences, FiniteSets, TLC
 
 CONSTANTS Polls,      \* poll instances, issued one after the other (1..n)
           Pubs,       \* publisher ids; publisher p publishes message p
-          Fix
+          Fix,
+          FixHB       \* the heart beat timer does not derive from the context of the request that started it
 
 None == <<>>
-VARIABLES cache, reg, chan, ppc, phand, upc, uhand, uresp, accepted, delivered, cur
-vars == <<cache, reg, chan, ppc, phand, upc, uhand, uresp, accepted, delivered, cur>>
+VARIABLES cache, reg, chan, ppc, phand, upc, uhand, uresp, accepted, delivered, cur,
+          hb,         \* the pending heart beat of the client: 0 none | BG (its own timer only) | the poll or
+                      \* publisher whose request context it was started with
+          gone,       \* polls and publishers whose request context has been cancelled (the request has
+                      \* ended, or the connection has been closed)
+          online      \* the client is subscribed (FALSE once the heart beat has taken it offline)
+vars == <<cache, reg, chan, ppc, phand, upc, uhand, uresp, accepted, delivered, cur, hb, gone, online>>
+BG == -1
+\* doHeartBeat(ctx, id) started by w (a poll or a publisher)
+StartHB(w) == hb' = IF FixHB THEN BG ELSE w
 
 Init == /\ cache = <<>> /\ reg = 0
         /\ chan = [r \in Polls |-> None]          \* None | <<"nil">> | <<"msgs", seq>>
         /\ ppc = [r \in Polls |-> "idle"] /\ phand = [r \in Polls |-> <<>>]
         /\ upc = [p \in Pubs |-> "idle"] /\ uhand = [p \in Pubs |-> <<>>] /\ uresp = [p \in Pubs |-> 0]
         /\ accepted = <<>> /\ delivered = <<>> /\ cur = 0
+        /\ hb = 0 /\ gone = {} /\ online = TRUE
 
 Nil == <<"nil">>
 Msgs(s) == <<"msgs", s>>
@@ -43,7 +59,7 @@ Msgs(s) == <<"msgs", s>>
 \* ---- polls: the client issues poll r+1 only after poll r has returned
 PStart(r) == /\ ppc[r] = "idle" /\ cur = r - 1 /\ (r > 1 => ppc[r - 1] = "done")
              /\ cur' = r /\ ppc' = [ppc EXCEPT ![r] = "popold"]
-             /\ UNCHANGED <<cache, reg, chan, phand, upc, uhand, uresp, accepted, delivered>>
+             /\ UNCHANGED <<cache, reg, chan, phand, upc, uhand, uresp, accepted, delivered, hb, gone, online>>
 
 \* responders.Pop(id) and `<- nil` to it (its channel is empty: only a popped responder is written to)
 PPopOld(r) == /\ ppc[r] = "popold"
@@ -51,75 +67,97 @@ PPopOld(r) == /\ ppc[r] = "popold"
                                  /\ chan' = [chan EXCEPT ![reg] = Nil] /\ reg' = 0
                  ELSE UNCHANGED <<chan, reg>>
               /\ ppc' = [ppc EXCEPT ![r] = "take"]
-              /\ UNCHANGED <<cache, phand, upc, uhand, uresp, accepted, delivered, cur>>
+              /\ hb' = 0       \* signals.Pop(id): a new poll ends the pending heart beat
+              /\ UNCHANGED <<cache, phand, upc, uhand, uresp, accepted, delivered, cur, gone, online>>
 
 \* send(): cache.Take()
 PTake(r) == /\ ppc[r] = "take"
             /\ phand' = [phand EXCEPT ![r] = cache] /\ cache' = <<>>
             /\ ppc' = [ppc EXCEPT ![r] = IF cache = <<>> THEN "register" ELSE "put"]
-            /\ UNCHANGED <<reg, chan, upc, uhand, uresp, accepted, delivered, cur>>
+            /\ UNCHANGED <<reg, chan, upc, uhand, uresp, accepted, delivered, cur, hb, gone, online>>
 
 PPut(r) == /\ ppc[r] = "put" /\ chan[r] = None
            /\ chan' = [chan EXCEPT ![r] = Msgs(phand[r])] /\ phand' = [phand EXCEPT ![r] = <<>>]
            /\ ppc' = [ppc EXCEPT ![r] = "wait"]
-           /\ UNCHANGED <<cache, reg, upc, uhand, uresp, accepted, delivered, cur>>
+           /\ StartHB(r)
+           /\ UNCHANGED <<cache, reg, upc, uhand, uresp, accepted, delivered, cur, gone, online>>
 
 \* responders.Upsert(id, responder, kick the one already there)
 PRegister(r) == /\ ppc[r] = "register"
                 /\ IF reg # 0 THEN chan[reg] = None /\ chan' = [chan EXCEPT ![reg] = Nil] ELSE UNCHANGED chan
                 /\ reg' = r /\ ppc' = [ppc EXCEPT ![r] = "wait"]
-                /\ UNCHANGED <<cache, phand, upc, uhand, uresp, accepted, delivered, cur>>
+                /\ UNCHANGED <<cache, phand, upc, uhand, uresp, accepted, delivered, cur, hb, gone, online>>
 
 Return(r, v) == /\ delivered' = IF v[1] = "msgs" THEN delivered \o v[2] ELSE delivered
                 /\ ppc' = [ppc EXCEPT ![r] = "done"]
 
 PWait(r) == /\ ppc[r] \in {"wait", "timedout"} /\ chan[r] # None
             /\ Return(r, chan[r]) /\ chan' = [chan EXCEPT ![r] = None]
-            /\ UNCHANGED <<cache, reg, phand, upc, uhand, uresp, accepted, cur>>
+            /\ UNCHANGED <<cache, reg, phand, upc, uhand, uresp, accepted, cur, hb, gone, online>>
 
 \* <-ctx.Done()
 PTimeout(r) == /\ ppc[r] = "wait"
                /\ IF Fix
-                  THEN ppc' = [ppc EXCEPT ![r] = "timedout"] /\ UNCHANGED delivered
-                  ELSE Return(r, Nil)
-               /\ UNCHANGED <<cache, reg, chan, phand, upc, uhand, uresp, accepted, cur>>
+                  THEN ppc' = [ppc EXCEPT ![r] = "timedout"] /\ UNCHANGED <<delivered, hb>>
+                  ELSE Return(r, Nil) /\ hb' = BG
+               /\ UNCHANGED <<cache, reg, chan, phand, upc, uhand, uresp, accepted, cur, gone, online>>
 
 \* repaired time-out: remove the responder only if it is still the registered one
 PAbandon(r) == /\ ppc[r] = "timedout" /\ reg = r
                /\ reg' = 0 /\ Return(r, Nil)
-               /\ UNCHANGED <<cache, chan, phand, upc, uhand, uresp, accepted, cur>>
+               /\ hb' = BG      \* go doHeartBeat(context.Background(), id)
+               /\ UNCHANGED <<cache, chan, phand, upc, uhand, uresp, accepted, cur, gone, online>>
 
 \* ---- publishers
 UAppend(p) == /\ upc[p] = "idle"
-              /\ cache' = Append(cache, p) /\ accepted' = Append(accepted, p)
-              /\ upc' = [upc EXCEPT ![p] = "pop"]
-              /\ UNCHANGED <<reg, chan, ppc, phand, uhand, uresp, delivered, cur>>
+              /\ IF online THEN /\ cache' = Append(cache, p) /\ accepted' = Append(accepted, p)
+                                /\ upc' = [upc EXCEPT ![p] = "pop"]
+                 ELSE /\ UNCHANGED <<cache, accepted>>           \* not subscribed: the publish reports false
+                      /\ upc' = [upc EXCEPT ![p] = "done"]
+              /\ UNCHANGED <<reg, chan, ppc, phand, uhand, uresp, delivered, cur, hb, gone, online>>
 
 UPop(p) == /\ upc[p] = "pop"
            /\ IF reg # 0 THEN uresp' = [uresp EXCEPT ![p] = reg] /\ reg' = 0 /\ upc' = [upc EXCEPT ![p] = "take"]
               ELSE upc' = [upc EXCEPT ![p] = "done"] /\ UNCHANGED <<uresp, reg>>
-           /\ UNCHANGED <<cache, chan, ppc, phand, uhand, accepted, delivered, cur>>
+           /\ UNCHANGED <<cache, chan, ppc, phand, uhand, accepted, delivered, cur, hb, gone, online>>
 
 UTake(p) == /\ upc[p] = "take"
             /\ uhand' = [uhand EXCEPT ![p] = cache] /\ cache' = <<>>
             /\ upc' = [upc EXCEPT ![p] = IF cache = <<>> THEN "rereg" ELSE "put"]
-            /\ UNCHANGED <<reg, chan, ppc, phand, uresp, accepted, delivered, cur>>
+            /\ UNCHANGED <<reg, chan, ppc, phand, uresp, accepted, delivered, cur, hb, gone, online>>
 
 UPut(p) == /\ upc[p] = "put" /\ chan[uresp[p]] = None
            /\ chan' = [chan EXCEPT ![uresp[p]] = Msgs(uhand[p])] /\ uhand' = [uhand EXCEPT ![p] = <<>>]
            /\ upc' = [upc EXCEPT ![p] = "done"]
-           /\ UNCHANGED <<cache, reg, ppc, phand, uresp, accepted, delivered, cur>>
+           /\ StartHB(p)
+           /\ UNCHANGED <<cache, reg, ppc, phand, uresp, accepted, delivered, cur, gone, online>>
 
 \* nothing to send: responders.SetIfAbsent(id, responder), else `<- nil`
 URereg(p) == /\ upc[p] = "rereg"
              /\ IF reg = 0 THEN reg' = uresp[p] /\ UNCHANGED chan
                 ELSE chan[uresp[p]] = None /\ chan' = [chan EXCEPT ![uresp[p]] = Nil] /\ UNCHANGED reg
              /\ upc' = [upc EXCEPT ![p] = "done"]
-             /\ UNCHANGED <<cache, ppc, phand, uhand, uresp, accepted, delivered, cur>>
+             /\ UNCHANGED <<cache, ppc, phand, uhand, uresp, accepted, delivered, cur, hb, gone, online>>
+
+\* ---- contexts and the heart beat.  The client polls back to back, well within the heart beat, so the
+\* ---- heart beat's own timer never fires; a heart beat started with a request's context also fires
+\* ---- when that context is cancelled: when the request has ended (mock transport) or when the
+\* ---- connection it came over is closed (a publisher may disconnect any time after its publish)
+CtxCancel(w) == /\ w \notin gone
+                /\ \/ w \in Polls /\ ppc[w] = "done"
+                   \/ w \in Pubs /\ upc[w] = "done"
+                /\ gone' = gone \cup {w}
+                /\ UNCHANGED <<cache, reg, chan, ppc, phand, upc, uhand, uresp, accepted, delivered, cur, hb, online>>
+
+\* <-ctx.Done() in doHeartBeat: the client is taken offline, what is queued for it is dropped
+HBFire == /\ hb \notin {0, BG} /\ hb \in gone
+          /\ online' = FALSE /\ cache' = <<>> /\ hb' = 0
+          /\ UNCHANGED <<reg, chan, ppc, phand, upc, uhand, uresp, accepted, delivered, cur, gone>>
 
 PollStep(r) == PStart(r) \/ PPopOld(r) \/ PTake(r) \/ PPut(r) \/ PRegister(r) \/ PWait(r) \/ PAbandon(r)
 PubStep(p) == UAppend(p) \/ UPop(p) \/ UTake(p) \/ UPut(p) \/ URereg(p)
 Next == (\E r \in Polls : PollStep(r) \/ PTimeout(r)) \/ (\E p \in Pubs : PubStep(p))
+        \/ (\E w \in Polls \cup Pubs : CtxCancel(w)) \/ HBFire
 Spec == Init /\ [][Next]_vars
 
 ---------------------------------------------------------------------------
@@ -136,6 +174,9 @@ Conservation == \A m \in Range(accepted) : Holders(m) = 1
 
 IsPrefix(s, t) == Len(s) <= Len(t) /\ \A i \in 1..Len(s) : s[i] = t[i]
 InOrder == IsPrefix(delivered, accepted)
+
+\* a client that polls within the heart beat is never taken offline
+StaysOnline == online
 
 \* liveness: under fairness of every code step, once all publishers are done and a poll starts afterwards,
 \* everything accepted is delivered - stated on the last poll: when it is done, nothing is left undelivered
